@@ -268,6 +268,7 @@ fn run_schedule_inner(v: &Value) -> RunResult {
                 leftovers.push(j.join().unwrap());
             }
             gate::set_tid(1);
+            gate::resume();
             shim::mark("join");
         });
         // after the join the lent handle is thread 1's own again
